@@ -99,7 +99,7 @@ class Monitor:
 
 class EndToEnd(Unit):
     name = "e2e.scenarios"
-    props = ("C20", "C09", "C05", "C06", "C01", "C02")
+    props = ("C20", "C09", "C05", "C06", "C01", "C02", "C08")
     fmodel = "ORDER"
     functions = [("cobyqa.main", "minimize")]
     bounded = ("native run-time contracts on a corpus of 7 problem statements x {no callback, overwriting callback} plus re-runs stopped by "
@@ -118,8 +118,13 @@ class EndToEnd(Unit):
             for sc in scenarios(rng):
                 for with_cb in (False, True):
                     mon = Monitor(sc, with_callback=with_cb)
-                    res = mon.run()
                     nm = sc["name"] + ("+cb" if with_cb else "")
+                    try:
+                        res = mon.run()
+                    except Exception as e:  # noqa: an exception leaving minimize on a valid problem statement (C08), whatever its cause
+                        chk("C08.e2e.no_exception_escapes_minimize", False, dict(s=nm, error=repr(e)))
+                        continue
+                    chk("C08.e2e.no_exception_escapes_minimize", True, None)
                     nev = len(mon.obj_calls) if sc["fun"] is not None else res.nfev
                     b = sc["kw"].get("bounds")
                     chk("C05.e2e.nfev_counts_objective_calls", res.nfev == nev, dict(s=nm, nfev=res.nfev, calls=nev))
@@ -147,13 +152,19 @@ class EndToEnd(Unit):
                         total = len(mon.cb_calls)
                         for k in sorted({1, 2, max(1, total // 2), max(1, total - 1)}):
                             m2 = Monitor(sc, stop_at=k)
-                            r2 = m2.run()
+                            try:
+                                r2 = m2.run()
+                            except Exception as e:  # noqa
+                                chk("C08.e2e.no_exception_escapes_minimize", False, dict(s=nm, k=k, error=repr(e)))
+                                continue
                             seen_x, seen_f = m2.cb_calls[-1][0], m2.cb_calls[-1][1]
                             info = dict(s=nm, k=k, status=r2.status, nfev=r2.nfev, returned=r2.x.tolist(), callback_saw=seen_x.tolist())
                             chk("C09.e2e.stop_at_call_k_gives_status3_nfev_k", r2.status == 3 and r2.nfev == k and len(m2.cb_calls) == k, info)
                             chk("C20.e2e.stopped_run_returns_what_the_callback_saw", np.array_equal(r2.x, seen_x) and (r2.fun == seen_f or (r2.fun != r2.fun and seen_f != seen_f)), info)
         for nm in sorted(seen):
-            c.oblige(nm, z3.BoolVal(nm not in fails), kind="bounded", note=str(fails.get(nm))[:1200] if nm in fails else None)
+            # a clause counts for the property it is written from; an exception escaping minimize spoils every clause of the scenario
+            props = list(self.props) if nm.startswith("C08.") else sorted({nm[:3]} | ({"C09", "C20"} if "stop" in nm else set()))
+            c.oblige(nm, z3.BoolVal(nm not in fails), kind="bounded", props=props, note=str(fails.get(nm))[:1200] if nm in fails else None)
 
 
 UNITS = [EndToEnd()]
